@@ -137,7 +137,7 @@ def verify(contract, callee_contracts=None, spec_functions=None, options=None):
             elif ctl[0] == "raise":
                 exc = ctl[1]; outcomes[exc.cls] = outcomes.get(exc.cls, 0) + 1
                 cover.setdefault(exc.cls, []).append(list(s.pc))
-                extra["exc"] = exc
+                extra["exc"] = exc; s.ghost["__exc__"] = exc
                 matched = [c for c in contract.raises if S.is_subclass(exc.cls, c)]
                 if not matched:
                     goal = z3.BoolVal(False); finding = None
